@@ -628,8 +628,10 @@ impl World {
         let (gbase, rbase) = if own { self.block_base.last().copied().unwrap_or((0, 0)) } else { (0, 0) };
         let guard_idx: Vec<usize> = GUARDS.with(|g| g.borrow().iter().enumerate().filter(|(i, x)| *i >= gbase && mine(self, x.1)).map(|(i, _)| i).collect());
         let nguards = guard_idx.len();
-        let trace_idx: Vec<usize> = (0..self.traces.len()).filter(|&i| self.traces[i].as_ref().map(|x| mine(self, x.1)).unwrap_or(false)).collect();
-        let ntr = trace_idx.len();
+        // (a captured SpanTrace is READ under any default - it walks its own collector; it is
+        // dropped only under its own registry's default)
+        let trace_idx: Vec<usize> = (0..self.traces.len()).filter(|&i| self.traces[i].is_some()).collect();
+        let ntr = (0..self.traces.len()).filter(|&i| self.traces[i].as_ref().map(|x| mine(self, x.1)).unwrap_or(false)).count();
         let raw_idx: Vec<usize> = RAW.with(|r| r.borrow().iter().enumerate().filter(|(i, x)| *i >= rbase && mine(self, Some(x.2))).map(|(i, _)| i).collect());
         let deep = depth >= 3;
         let c6 = self.w.c06;
@@ -646,7 +648,7 @@ impl World {
             if c6 { 6 } else { 2 },                        // 8 event
             2,                                             // 9 Span::current capture
             if c6 && ntr < 3 { 3 } else { 0 },             // 10 SpanTrace::capture
-            if ntr > 0 { 3 } else { 0 },                   // 11 check / drop trace
+            if !trace_idx.is_empty() { 3 } else { 0 },                   // 11 check / drop trace
             if self.w.foreign && !deep { 2 } else { 0 },   // 12 with other default { body }
             if has { 1 } else { 0 },                       // 13 re-enter same span (duplicate) scoped
             if has && nraw < 4 { 3 } else { 0 },           // 14 enter through the collector API (owns no handle)
@@ -927,7 +929,11 @@ impl World {
             }
             11 => {
                 let k = *self.rng.pick(&trace_idx);
-                let drop_it = self.rng.chance(1, 3);
+                let foreign_read = !mine(self, self.traces[k].as_ref().unwrap().1);
+                let drop_it = !foreign_read && self.rng.chance(1, 3);
+                if foreign_read {
+                    self.stat("span_traces_read_under_another_registrys_default");
+                }
                 let (tr, s) = self.traces[k].take().unwrap();
                 self.trace.push(format!("[w{t}] {}(tr{k}) [leaf serial {s:?}]", if drop_it { "drop" } else { "check" }));
                 // the chain must still be fully readable: leaf -> root, right names and fields
